@@ -128,6 +128,16 @@ def applyList (u : Univ) (ls : String) : List P × List S :=
     (u.pubs.set m (u.fresh • g), u.secs.set m u.fresh)
   | "drop" => (u.pubs.take (n - 1), u.secs.take (n - 1))
   | "add" => (u.pubs ++ [u.fresh • g], u.secs ++ [u.fresh])
+  | "neg" =>
+    let m := parseNat (p.getD 1 "") % n
+    match u.secs[m]? with
+    | some s => (u.pubs.set m ((-s) • g), u.secs.set m (-s))
+    | none => (u.pubs, u.secs)
+  | "dup" =>
+    let a := parseNat (p.getD 1 "") % n; let b := parseNat (p.getD 2 "") % n
+    match u.pubs[b]?, u.secs[b]? with
+    | some pb, some sb => (u.pubs.set a pb, u.secs.set a sb)
+    | _, _ => (u.pubs, u.secs)
   | _ => (u.pubs, u.secs)
 
 /-- `ProcessEncryptedDeal`, then every other member's signed approval, then `Deal() != nil` -/
